@@ -185,6 +185,15 @@ pub enum UE4 {
     S(US1),
 }
 
+/// a variant with three fields whose middle one is preceded by padding:
+/// tag@0, DATA_OFFSET 4, align 4, MIN 4. B(u8@4, u32@8, u8@12) needs 9 data bytes
+#[flat(sized = false, default = true)]
+pub enum UE5 {
+    #[default]
+    A,
+    B(u8, u32, u8),
+}
+
 /// portable unsized struct: a@0..2, b@2 (len le16@2..4, data@4.. of le::U16); align 1, MIN 4
 #[flat(sized = false, portable = true, default = true)]
 pub struct PUS {
@@ -750,6 +759,17 @@ shape!(X_U8L16, false, FlexVec<u8, u16>, 2, 2, |b, d| { top_flex(Item::El(El::U8
     o.c.put(n);
 });
 
+// portable two-byte offset type with one-byte items: OFFSET_SIZE 2, align 1 (an item slot is 3 bytes)
+shape!(X_U8P, false, FlexVec<u8, le::U16>, 1, 2, |b, d| { top_flex(Item::El(El::U8), 2, 1, b, d); }, |v, o| {
+    let mut n = 0u8;
+    for x in v.iter() {
+        o.at(x);
+        o.c.put(*x);
+        n += 1;
+    }
+    o.c.put(n);
+});
+
 // offset type more strictly aligned than the items: OFFSET_SIZE 2, align 2, items of align 1
 shape!(X_V8L16, false, FlexVec<FlatVec<u8, u8>, u16>, 2, 2, |b, d| { top_flex(Item::VecU8(1), 2, 2, b, d); }, |v, o| {
     let mut n = 0u8;
@@ -1132,6 +1152,45 @@ shape!(U_E4, UE4, 2, 2, |b, d| {
             o.c.put(s.a);
             o.c.put16(s.b);
             obs_vec_u8(&s.c, o);
+        }
+    }
+});
+
+shape!(U_E5, false, UE5, 4, 4, |b, d| {
+    if b.len() < 4 {
+        d.short = true;
+    } else {
+        let dn = fl(b.len() - 4, 4);
+        let t = b[0];
+        if t > 1 {
+            d.mark(0);
+        } else {
+            d.c.put(t);
+            if t == 0 {
+                d.used = 1;
+                d.ext = 4;
+            } else if dn < 9 {
+                d.short = true;
+            } else {
+                d.c.put(b[4]);
+                d.c.put32(rd32(b, 8));
+                d.c.put(b[12]);
+                d.used = 13;
+                d.ext = 16;
+            }
+        }
+    }
+}, |v, o| {
+    match v.as_ref() {
+        UE5Ref::A => o.c.put(0),
+        UE5Ref::B(x, y, z) => {
+            o.c.put(1);
+            o.at(x);
+            o.at(y);
+            o.at(z);
+            o.c.put(*x);
+            o.c.put32(*y);
+            o.c.put(*z);
         }
     }
 });
